@@ -22,6 +22,19 @@ Reading of the source
   accepted at most once per function;
 * (round 4, C09) a masked plain assignment `x[mask] = e` (mask = a comparison bound to a name) reads "where mask holds
   x becomes e", like the masked augmented assignment.
+
+Fragments (`emit_fragments`, added for `GenomicArray.by_arm`): instead of a whole function, single pieces of a
+function body are read -- the right-hand side of the k-th assignment to a name, the test of the `if` statement whose
+body assigns a given name, the bounds of the slices in an assignment, the index of a subscript -- each into a
+definition of its own whose parameters are the free names of the piece; the control flow around the pieces is
+re-assembled by hand in the proof module (Lemmas/SrcArm.lean) and is part of what is trusted there.  Additional rules:
+* `round(e)` with one argument is Python's round-half-to-even of the exact value of `e` (an integer), and
+  `int(round(e))` is read as `round(e)`;
+* `name.argmax()` becomes the parameter `name_argmax`;
+* a local bound exactly once is read through to its defining expression (except the locals the fragments are about),
+  local names are mapped to canonical ones given by the extractor, and parameters are listed alphabetically;
+* a fragment marked `int` contains only `+`, `-`, `*`, integer literals, names and comparisons; it is emitted over
+  `Int` (index arithmetic), a test as a `Bool` (`decide`).
 """
 from __future__ import annotations
 
@@ -133,6 +146,17 @@ class Fn:
                 return f"((({self.expr(args[0], env)}).ceil : Int) : Rat)"
             if f in ("math.floor", "np.floor") and len(args) == 1:
                 return f"((({self.expr(args[0], env)}).floor : Int) : Rat)"
+            if f == "int" and len(args) == 1 and isinstance(args[0], ast.Call) and ast.unparse(args[0].func) == "round" \
+                    and len(args[0].args) == 1 and not args[0].keywords:
+                return self.expr(args[0], env)   # round() already returns an integer
+            if f == "round" and len(args) == 1 and not e.keywords:
+                x = self.expr(args[0], env)
+                return (f"(let r_ : Rat := {x}; let f_ : Int := r_.floor; "
+                        f"if 2 * (r_ - (f_ : Rat)) < 1 then (f_ : Rat) else if 2 * (r_ - (f_ : Rat)) > 1 then ((f_ + 1 : Int) : Rat) "
+                        f"else if f_ % 2 = 0 then (f_ : Rat) else ((f_ + 1 : Int) : Rat))")
+            if isinstance(e.func, ast.Attribute) and e.func.attr == "argmax" and not args and not e.keywords \
+                    and isinstance(e.func.value, ast.Name):
+                return self.param(self.rename.get(e.func.value.id, e.func.value.id) + "_argmax")
             if f == "int" and len(args) == 1:
                 x = self.expr(args[0], env)
                 return f"(if {x} < 0 then ((({x}).ceil : Int) : Rat) else ((({x}).floor : Int) : Rat))"
@@ -317,3 +341,101 @@ def emit(repo, o, specs):
             continue
         o.lines.append(text)
         o.info[lean] = {"params": params}
+
+
+# ---- fragments of a function body (see the module docstring) -------------------------------------------------
+
+def _assignments(fn, name):
+    out = [n for n in ast.walk(fn) if isinstance(n, ast.Assign) and len(n.targets) == 1
+           and isinstance(n.targets[0], ast.Name) and n.targets[0].id == name]
+    return sorted(out, key=lambda n: (n.lineno, n.col_offset))
+
+
+def _if_assigning(fn, name):
+    """the first `if` (source order) whose own body (not its else) directly holds an assignment to `name`"""
+    ifs = sorted((n for n in ast.walk(fn) if isinstance(n, ast.If)), key=lambda n: (n.lineno, n.col_offset))
+    for n in ifs:
+        for st in n.body:
+            if isinstance(st, ast.Assign) and any(isinstance(t, ast.Name) and t.id == name for t in st.targets):
+                return n
+    raise Untranslatable(f"no `if` whose body assigns `{name}`")
+
+
+def _slices(node):
+    out = [n for n in ast.walk(node) if isinstance(n, ast.Subscript) and isinstance(n.slice, ast.Slice)]
+    return sorted(out, key=lambda n: (n.lineno, n.col_offset))
+
+
+def _to_int(text):
+    if "/" in text or ".floor" in text or ".ceil" in text or "_pow2" in text:
+        raise Untranslatable("fragment marked `int` is not integer arithmetic: " + text[:80])
+    return text.replace(": Rat)", ": Int)")
+
+
+def fragment(fn, kind, name, k=0):
+    """-> (ast node of the piece, is_condition)"""
+    if kind == "assign":
+        a = _assignments(fn, name)
+        if len(a) <= k:
+            raise Untranslatable(f"assignment #{k} to `{name}` not found")
+        return a[k].value, False
+    if kind == "iftest":
+        return _if_assigning(fn, name).test, True
+    if kind in ("slice_lo", "slice_hi"):
+        a = _assignments(fn, name)
+        if not a:
+            raise Untranslatable(f"assignment to `{name}` not found")
+        sl = _slices(a[0].value)
+        if len(sl) <= k or sl[k].slice.step is not None:
+            raise Untranslatable(f"slice #{k} in the assignment to `{name}` not found")
+        b = sl[k].slice.lower if kind == "slice_lo" else sl[k].slice.upper
+        if b is None:
+            raise Untranslatable(f"slice #{k} in the assignment to `{name}` has no such bound")
+        return b, False
+    if kind == "index":
+        a = _assignments(fn, name)
+        if len(a) <= k or not isinstance(a[k].value, ast.Subscript) or isinstance(a[k].value.slice, ast.Slice):
+            raise Untranslatable(f"assignment #{k} to `{name}` is not a subscript")
+        return a[k].value.slice, False
+    raise Untranslatable("fragment kind " + kind)
+
+
+def emit_fragments(repo, o, path, fname, cls, specs, rename=None, keep=()):
+    """specs: (lean name, kind, name, k, int?, comment).  A piece outside the subset leaves a comment, so that
+    exactly the theorems about it stop checking.  `rename` maps the function's local names to the canonical names the
+    proofs use; locals bound exactly once (other than `keep`) are read through (`translate.expand`); the parameters
+    of a fragment are emitted in alphabetical order, so that renaming a local, naming an intermediate value or
+    commuting a sum does not change the generated signature."""
+    import os
+    from .translate import parse, find_func, expand
+    try:
+        tree, _src = parse(os.path.join(repo, path))
+        fn = find_func(tree, fname, cls)
+    except (KeyError, OSError, SyntaxError) as e:
+        o.lines.append(f"-- NOT TRANSLATED: {path}:{fname}: {type(e).__name__}: {str(e)[:200]}".replace("\n", " "))
+        return None
+    for lean, kind, name, k, as_int, comment in specs:
+        try:
+            node, is_cond = fragment(fn, kind, name, k)
+            node = expand(node, fn, tree, keep=tuple(keep))
+            t = Fn(fn, rename=rename)
+            body = t.cond(node, {}) if is_cond else t.expr(node, {})
+            if "MASK:" in body:
+                raise Untranslatable("a mask escaped into an arithmetic position")
+            typ = "Rat"
+            if as_int:
+                body, typ = _to_int(body), "Int"
+            t.params.sort()
+            ps = " ".join(t.params)
+            binder = f" ({ps} : {typ})" if t.params else ""
+            if is_cond:
+                text = f"def {lean}{binder} : Bool :=\n  decide {body}"
+            else:
+                text = f"def {lean}{binder} : {typ} :=\n  {body}"
+        except Untranslatable as e:
+            o.lines.append(f"-- NOT TRANSLATED: {path}:{fname}:{kind} {name}#{k}: {str(e)[:200]}".replace("\n", " "))
+            o.info[lean] = {"error": str(e)[:200]}
+            continue
+        o.lines.append(f"/-- {comment} -/\n" + text)
+        o.info[lean] = {"params": list(t.params)}
+    return fn
